@@ -1,5 +1,6 @@
 import DaeVerif.C01.Proofs
 import DaeVerif.C01.Position
+import DaeVerif.C01.Encoding
 /-!
 # C01 — property theorems (first-match routing semantics)
 -/
@@ -123,5 +124,105 @@ theorem first_final_decides (p : Pkt) (r : SRule) (rs : List SRule) (fb o : Out)
 theorem route_ipversion (is4 : Bool) (dst : Nat) :
     routeIpVersion is4 dst = if is4 = true ∨ dst / 2 ^ 32 = 0xffff then 1 else 2 := by
   unfold routeIpVersion; simp
+
+/-! ## The byte-encoded array (what `Match` really walks) -/
+
+/-- **Headline on the byte form.** With every rule's and the fallback's outbound id at most
+`OutboundUserDefinedMax` (0xFB) — which `NewControlPlane` guarantees by refusing more outbounds than
+that — the `Match` loop over the array with its tails stored as ONE byte (user id / 0xFC `must_rules`
+/ 0xFE OR / 0xFF AND, recovered by the two mask tests of the code) decides as the first-match
+specification. -/
+theorem match_bytes_is_first_match (rules : List SRule) (fb : Out) (p : Pkt) (hp : p.WF)
+    (hr : ∀ r ∈ rules, r.WF) (ho : OutsOk rules fb) :
+    matchBytes rules fb p = some (firstMatchS p rules fb false) := by
+  unfold matchBytes
+  rw [scanB_encode (evalM p) _ (tailOk_compileProgram rules fb ho)]
+  exact match_is_first_match rules fb p hp hr
+
+/-- The hypothesis is necessary: an outbound id inside the reserved range changes the structure of
+the program.  Rule `dport(80) -> <outbound 0xFC>` is read back as `-> must_rules`: a packet to port 80
+is sent to the fallback (with must set) instead of outbound 0xFC. -/
+theorem outbound_in_reserved_range_misroutes :
+    let rules : List SRule := [⟨⟨false, .port true ⟨⟨(80, 80), []⟩, []⟩⟩, [], .final ⟨0xFC, 0, false⟩⟩]
+    let p : Pkt := ⟨0, 0, 1, 80, 1, 1, List.replicate 16 0, 0, 0, []⟩
+    matchBytes rules ⟨0, 0, false⟩ p = some ⟨0, 0, true⟩ ∧
+    firstMatchS p rules ⟨0, 0, false⟩ false = ⟨0xFC, 0, false⟩ := by
+  decide
+
+-- non-vacuity of `OutsOk`: the example program above (outbounds 2, 3, fallback 0)
+example : OutsOk exRules ⟨0, 0, false⟩ := by
+  refine ⟨by decide, ?_⟩
+  intro r hr o ho
+  simp only [exRules, List.mem_cons, List.not_mem_nil, or_false] at hr
+  rcases hr with rfl | rfl | rfl <;> simp at ho <;> subst ho <;> decide
+
+/-! ## `Route`'s marshalling -/
+
+/-- `ipversion(4)` holds for a packet as `Route` marshals it iff the destination is an IPv4 address or
+an IPv4-mapped IPv6 address; `ipversion(6)` iff it is neither (exactly one of the two always holds). -/
+theorem route_ipversion_condition (a : RouteArgs) (hd : a.dstIs4 = true → a.dst < 2 ^ 32) :
+    (bodyHolds (pktOfRoute a) (.ipversion ⟨⟨1, []⟩, []⟩) = true ↔
+      (a.dstIs4 = true ∨ a.dst / 2 ^ 32 = 0xffff)) ∧
+    (bodyHolds (pktOfRoute a) (.ipversion ⟨⟨2, []⟩, []⟩) = true ↔
+      ¬ (a.dstIs4 = true ∨ a.dst / 2 ^ 32 = 0xffff)) := by
+  have hm : ∀ x, x < 2 ^ 32 → mapped4 x / 2 ^ 32 = 0xffff := by
+    intro x hx; unfold mapped4; omega
+  cases h4 : a.dstIs4
+  · by_cases hv : a.dst / 2 ^ 32 = 0xffff <;>
+      simp [bodyHolds, NE.toList, pktOfRoute, routeIpVersion, as16, h4, hv]
+  · have := hm a.dst (hd h4)
+    simp [bodyHolds, NE.toList, pktOfRoute, routeIpVersion, as16, h4, this]
+
+/-- A packet as `Route` marshals it is well-formed (so the headline theorems apply to every call of
+`Route` with 4- or 16-byte addresses, a 6-byte MAC and l4 ∈ {tcp, udp}). -/
+theorem route_packet_wf (a : RouteArgs) (hs4 : a.srcIs4 = true → a.src < 2 ^ 32)
+    (hs6 : a.srcIs4 = false → a.src < 2 ^ 128) (hd4 : a.dstIs4 = true → a.dst < 2 ^ 32)
+    (hd6 : a.dstIs4 = false → a.dst < 2 ^ 128) (hm : a.mac6 < 2 ^ 48) (hl : a.l4 = 1 ∨ a.l4 = 2) :
+    (pktOfRoute a).WF := by
+  have hm4 : ∀ x, x < 2 ^ 32 → mapped4 x < 2 ^ 128 := by intro x hx; unfold mapped4; omega
+  refine ⟨?_, ?_, hm, hl, ?_⟩
+  · simp only [pktOfRoute, as16]; cases h : a.srcIs4
+    · simpa [h] using hs6 h
+    · simpa [h] using hm4 _ (hs4 h)
+  · simp only [pktOfRoute, as16]; cases h : a.dstIs4
+    · simpa [h] using hd6 h
+    · simpa [h] using hm4 _ (hd4 h)
+  · simp only [pktOfRoute, routeIpVersion]; split <;> simp
+
+/-- End to end from `Route`'s arguments: the decision is the first-match specification evaluated on
+the marshalled packet. -/
+theorem route_is_first_match (rules : List SRule) (fb : Out) (a : RouteArgs)
+    (hs4 : a.srcIs4 = true → a.src < 2 ^ 32) (hs6 : a.srcIs4 = false → a.src < 2 ^ 128)
+    (hd4 : a.dstIs4 = true → a.dst < 2 ^ 32) (hd6 : a.dstIs4 = false → a.dst < 2 ^ 128)
+    (hm : a.mac6 < 2 ^ 48) (hl : a.l4 = 1 ∨ a.l4 = 2)
+    (hr : ∀ r ∈ rules, r.WF) (ho : OutsOk rules fb) :
+    matchBytes rules fb (pktOfRoute a) = some (firstMatchS (pktOfRoute a) rules fb false) :=
+  match_bytes_is_first_match rules fb _ (route_packet_wf a hs4 hs6 hd4 hd6 hm hl) hr ho
+
+/-! ## The documented special cases, at the compiled level
+(the same facts as above, stated about what `Match` evaluates, via `condition_meaning`) -/
+
+theorem compiled_negated_mac_never_matches_zero_mac (p : Pkt) (hp : p.WF) (gs : NE (NE Nat))
+    (hg : ∀ g ∈ gs.toList, ∀ m ∈ g.toList, m < 2 ^ 48) (h0 : p.mac = 0) :
+    condHolds (evalM p) (compileCond ⟨true, .mac gs⟩) = false := by
+  rw [condition_meaning p hp ⟨true, .mac gs⟩ hg]; exact negated_mac_never_matches_zero_mac p gs h0
+
+theorem compiled_pname_unknown_never_matches (p : Pkt) (hp : p.WF) (gs : NE (NE (List Nat)))
+    (h0 : p.pname.headD 0 = 0) : condHolds (evalM p) (compileCond ⟨false, .pname gs⟩) = false := by
+  rw [condition_meaning p hp ⟨false, .pname gs⟩ trivial]
+  simp [scondHolds, pname_unknown_never_matches p gs h0]
+
+theorem compiled_port_range_inclusive (p : Pkt) (hp : p.WF) (lo hi : Nat) :
+    condHolds (evalM p) (compileCond ⟨false, .port true ⟨⟨(lo, hi), []⟩, []⟩⟩) =
+      decide (lo ≤ p.dport ∧ p.dport ≤ hi) := by
+  rw [condition_meaning p hp ⟨false, .port true ⟨⟨(lo, hi), []⟩, []⟩⟩ trivial]
+  simp [scondHolds, port_range_inclusive]
+
+/-- the first rule decides when it holds and is final — on the compiled program -/
+theorem compiled_first_final_decides (p : Pkt) (hp : p.WF) (r : SRule) (rs : List SRule) (fb o : Out)
+    (hr : ∀ x ∈ r :: rs, x.WF) (hh : sruleHolds p r = true) (ho : r.out = .final o) :
+    matchM (compileProgram (r :: rs) fb) p = some o := by
+  rw [match_is_first_match _ fb p hp hr, first_final_decides p r rs fb o false hh ho]
+  simp
 
 end DaeVerif.C01.Props
